@@ -244,6 +244,10 @@ def apply_observe(sess, op):
                 sess.fail("C05", "mux-is-reported", "solve() raised %s(%s) on a system with a PMux instead of reporting it" % (r[1], r[2]))
         if "C03" in E:
             sess.stats["c03_outcome:" + r[1]] += 1
+            mi_ = kw.get("maxiter", 10000)
+            nph_ = 1 if (kw.get("phase") or not m.sys_phases) else len(m.sys_phases)
+            if sess.w.sweeps.fwd > nph_ * (mi_ + 1):
+                sess.fail("C03", "terminates-within-maxiter", "%d sweeps before raising %s with maxiter=%d (%d phase(s))" % (sess.w.sweeps.fwd, r[1], mi_, nph_))
             defaults = not any(k in kw for k in ("vtol", "itol", "maxiter"))
             if defaults:
                 from .refsolve import modest
